@@ -24,7 +24,7 @@ ELS = ["C", "H", "O", "N", "Zr", "Cu", "F", "S", "Cl", "Hf"]
 
 def cases(tier, seed):
     rng = np.random.default_rng([16, seed])
-    n = 300 if tier == "quick" else 6000
+    n = 300 if tier == "quick" else 100000
     out = [{"s": int(rng.integers(1 << 30)), "ids": ["inorder", "shuffled", "nonsequential", "strings"][j % 4],
             "bonds": ["none", "random", "reversed", "no_bondarray"][(j // 4) % 4], "n": [1, 2, 3, 5, 16, 40][(j // 16) % 6] if j % 3 == 0 else None}
            for j in range(n)]
@@ -195,7 +195,7 @@ def run_case(case, ctx):
 
 def requirements(stats, tier):
     need = []
-    if stats.get("loads_checked") < (1500 if tier == "quick" else 30000):
+    if stats.get("loads_checked") < (1500 if tier == "quick" else 500000):
         need.append("too few loads observed: %d" % stats.get("loads_checked"))
     if stats.nseen("id_scheme") < 4:
         need.append("not all id schemes observed")
